@@ -256,3 +256,5 @@ func stripTimes(v map[string]any) map[string]any {
 	}
 	return out
 }
+
+func newRand(seed int64) *rand.Rand { return rand.New(rand.NewSource(seed)) }
